@@ -89,8 +89,9 @@ def describe_loop_error(ctx):
     ex = ctx.get("exception")
     what = ("%s: %s" % (type(ex).__name__, ex)) if ex is not None else str(ctx.get("message"))
     h = ctx.get("handle")
-    if h is not None:
-        what += " [in %s]" % getattr(getattr(h, "_callback", None), "__qualname__", getattr(h, "_callback", None))
+    cb_ = getattr(h, "_callback", None)
+    if cb_ is not None:
+        what += " [in %s]" % getattr(cb_, "__qualname__", cb_)
     return what[:240]
 
 
@@ -156,8 +157,10 @@ def simulate(case, close_at, want_blocks=True):
             for addr_ in pr._timers:
                 n_ = len(pr._deferred.get(addr_, ()))
                 tcmin = n_ if tcmin is None else min(tcmin, n_)
+        # ... and the whole list: packets deferred per armed timer, over all of A's listeners (threaded through the model: `c17tcs`)
+        tcs = sorted(len(pr._deferred.get(addr_, ())) for pr in eng.protocols for addr_ in pr._timers)
         return [bool(za.done), bool(a_.transports and all(x.closed for x in a_.transports)), bool(t is not None and not t.cancelled()),
-                bool(rx is None or rx.closed), bool(eng.running_event is not None and eng.running_event.is_set()), tcmin]
+                bool(rx is None or rx.closed), bool(eng.running_event is not None and eng.running_event.is_set()), tcmin, tcs]
 
     orig_block = sim.block
 
@@ -837,6 +840,31 @@ KIND = {"recv": "recv", "outq.ready": "outq", "sched.startup": "sched", "sched.r
         "orphan": "task"}
 
 
+def tcs_lines(case, obs):
+    """one `c17tcs` line: for every block of the whole run (A's and the peer's, before and after the close) the listener's armed
+    deferral timers -- packets deferred per timer -- when the block started and when the next block started: the model's `step`
+    must take the one list to the other (arrivals add a packet / a timer or answer and cancel one, a firing timer removes itself,
+    nothing else touches them)"""
+    evs = [e for e in obs["blocks"] if e.get("flags") is not None and len(e["flags"]) > 6 and e["t"] is not None and e["t"] >= obs.get("t_start", 0)]
+    peer = set(obs.get("peer_oids", []))
+    ops, info = [], []
+    final = obs.get("final_flags")
+    for k, e in enumerate(evs):
+        nxt = evs[k + 1]["flags"] if k + 1 < len(evs) else (final if final and len(final) > 6 else None)
+        if nxt is None:
+            continue
+        kind = "orphan" if e["kind"] == "ORPHAN" else e["kind"]
+        kk = KIND.get(kind) or "task"
+        if e.get("obj") in peer:
+            kk = "task"      # a block of the peer: A's timers are not its business
+        before, after = e["flags"][6], nxt[6]
+        if kk == "task" and before == after:
+            continue         # (the bulk: task steps that leave the timers alone)
+        ops.append("%s %s %s %s" % (kk, C.b01(e["flags"][0]), C.natlist(before), C.natlist(after)))
+        info.append((e["t"], kind, before, after))
+    return (["c17tcs %d %s" % (len(ops), " ".join(ops))] if ops else []), info
+
+
 def close_lines(obs):
     """one `c17closes` line: the interleaved steps of all overlapping close calls.  Which model blocks a real task step
     amounts to is read off the functions that ran inside it (markers logged by class-level wrappers); the driver replays
@@ -983,6 +1011,9 @@ def flush_model(res, ctx, acc):
         ls, info = block_lines(case, obs)
         spans.append((case, obs, info, len(lines), len(ls)))
         lines += ls
+        tl, tinfo = tcs_lines(case, obs)
+        spans.append((case, obs, ("tcs", tinfo), len(lines), len(tl)))
+        lines += tl
         cl, cinfo = close_lines(obs)
         spans.append((case, obs, ("closes", cinfo), len(lines), len(cl)))
         lines += cl
@@ -1002,6 +1033,18 @@ def flush_model(res, ctx, acc):
             py = st["done"] and st["transports_closed"] and st["cleanup_cancelled"]
             if out[a] != C.b01(py):
                 res.disagree("c17closed", {"case": case}, C.b01(py), out[a])
+            continue
+        if isinstance(info, tuple) and info[0] == "tcs":
+            verdicts = out[a].split(";")
+            if len(verdicts) != len(info[1]):
+                res.disagree("c17tcs", {"case": case}, "%d blocks" % len(info[1]), out[a][:200])
+                continue
+            for (t, kind, before, after), v in zip(info[1], verdicts):
+                if before != after:
+                    res.count("tc-timers-threaded:" + kind.split(":")[0] + (":+" if len(after) > len(before) or sum(after) > sum(before) else ":-"))
+                if v != "ok":
+                    res.disagree("c17tcs", {"case": case, "block": [t, kind]}, "armed deferral timers %s -> %s" % (before, after), v)
+                    break
             continue
         if isinstance(info, tuple):
             cinfo = info[1]
